@@ -222,17 +222,8 @@ RecvFilters(p, m) ==
     LET s == peer[p]
         n == Len(m.fs)
     IN
-    \* a script whose number is raised (or confirmed: number <= the new filtered number while nothing is
-    \* pending) by update_block_number no longer over-claims
-    /\ over' = IF scripts' # scripts \/ (mdb' = <<>> /\ mmem' = {} /\ minF' # minF)
-               THEN {k \in over : \E e \in scripts' : e[1] = k /\ e[2] > minF'} ELSE over
     /\ UNCHANGED <<world, cfg, now, peer, tip, tipTD, lastN>>
     /\ UNCHANGED <<startOf, cpFinal>>
-    \* blocks that enter a matched record although the filter at their position belongs to another block
-    /\ subst' = subst \cup (IF Len(mdb') > Len(mdb) /\ Len(m.fs) = Len(m.hs)
-                            THEN {m.hs[i] : i \in {j \in 1..Len(m.hs) : m.hs[j] # m.fs[j]}}
-                                 \cap (UNION {{mdb'[i][3][j][1] : j \in 1..Len(mdb'[i][3])} : i \in 1..Len(mdb')})
-                            ELSE {})
     /\ IF scripts = {} \/ s.st = "None" \/ ~HasProof(s)
        THEN /\ out'.ban = {} /\ UNCHANGED <<scripts, minF, mdb, mmem>> /\ IxUnchanged
        ELSE IF minF + 1 # m.start
@@ -278,6 +269,16 @@ RecvFilters(p, m) ==
                                  /\ \A j \in 1..Len(rec[3]) : rec[3][j][2] = (rec[3][j][1] = s.proved)
                        /\ UNCHANGED scripts
                        /\ mmem' = IF mmem = {} THEN RecBlocks(mdb'[1]) ELSE mmem
+    \* (history variables last: they are functions of the new state)
+    \* a script whose number is raised (or confirmed: number <= the new filtered number while nothing is
+    \* pending) by update_block_number no longer over-claims
+    /\ over' = IF scripts' # scripts \/ (mdb' = <<>> /\ mmem' = {} /\ minF' # minF)
+               THEN {k \in over : \E e \in scripts' : e[1] = k /\ e[2] > minF'} ELSE over
+    \* blocks that enter a matched record although the filter at their position belongs to another block
+    /\ subst' = subst \cup (IF Len(mdb') > Len(mdb) /\ Len(m.fs) = Len(m.hs)
+                            THEN {m.hs[i] : i \in {j \in 1..Len(m.hs) : m.hs[j] # m.fs[j]}}
+                                 \cap (UNION {{mdb'[i][3][j][1] : j \in 1..Len(mdb'[i][3])} : i \in 1..Len(mdb')})
+                            ELSE {})
 
 (***************************************************************************)
 (* SendBlocksProof for matched blocks (the fetch part is in module Fetch)  *)
@@ -308,7 +309,6 @@ RecvBlock(p, b, body) ==
          /\ UNCHANGED <<scripts, startOf, minF, mdb, mmem, cpFinal, cached, over, subst>> /\ IxUnchanged
     ELSE
     /\ UNCHANGED subst
-    /\ over' = IF mdb' # mdb THEN {k \in over : NumOf(k) > mdb[1][1] + mdb[1][2] - 1} ELSE over
     /\ UNCHANGED <<world, cfg, now, peer, tip, tipTD, lastN>>
     /\ UNCHANGED <<startOf, minF, cpFinal, cached>>
     /\ out'.ban = {}
@@ -326,6 +326,7 @@ RecvBlock(p, b, body) ==
                      /\ mdb' = Tail(mdb)
                      /\ mmem' = IF Tail(mdb) = <<>> THEN {} ELSE RecBlocks(mdb[2])
           ELSE /\ mmem' = m1 /\ UNCHANGED <<scripts, mdb>> /\ IxUnchanged
+    /\ over' = IF mdb' # mdb THEN {k \in over : NumOf(k) > mdb[1][1] + mdb[1][2] - 1} ELSE over
 
 (***************************************************************************)
 (* Ticks that touch mmem: recovery of the earliest record after a restart  *)
